@@ -325,7 +325,7 @@ class _HGen:
             if self.macros or self.cur_macros:
                 choices.append((2, "mcall"))
             if loopy:
-                choices.append((2, "loopidx"))
+                choices.append((5, "loopidx"))
             if self.has_mc:
                 choices.append((1, "callfilter"))
             k = _weighted(d, choices)
@@ -385,7 +385,18 @@ class _HGen:
                         self.scoped_names.discard(nm)
                 else:
                     node = self.block_node(nm, lvl, depth, in_loop=False)
-                body.append(node)
+                # the block is a direct child of the loop body, or sits one level deeper (if / with)
+                wrap = _weighted(d, [(5, "none"), (2, "iftrue"), (1, "ifvar"), (2, "with")])
+                if node[2].get("required") and wrap == "ifvar":
+                    wrap = "iftrue"  # a required placement that may be unreachable is not decided by the docs
+                if wrap == "none":
+                    body.append(node)
+                elif wrap == "iftrue":
+                    body.append(["if", ["c", True], [node], []])
+                elif wrap == "ifvar":
+                    body.append(["if", ["n", "x"], [node], [self.text()]])
+                else:
+                    body.append(["with", "w", self.const_expr(), [node]])
                 if node[2].get("required") and not vals:
                     vals = [1]  # a required placement that is never reached is not decided by the docs
         return ["for", var, vals, body]
@@ -561,6 +572,7 @@ class _MGen:
         self.lib_macros = {}  # lib -> public macro names surely defined
         self.lib_vars = {}
         self.have_broken = False
+        self.have_deep = False
         self.buffered_nocontext = buffered_nocontext
         self.alias_n = 0
 
@@ -651,13 +663,17 @@ class _MGen:
         return items
 
     # -- user templates
-    def target(self, kind_ok=("c", "list", "var", "varlist", "tobj", "missing", "broken")):
+    def target(self, kind_ok=("c", "list", "var", "varlist", "tobj", "missing", "broken", "deep")):
         """-> (target, lib name or None when missing/broken, extra opts)"""
         d = self.draw
         lib = d(st.sampled_from(self.libs))
-        k = _weighted(d, [(6, "c"), (3, "list"), (2, "var"), (2, "varlist"), (2, "tobj"), (2, "missing"), (1, "broken")])
+        k = _weighted(d, [(6, "c"), (3, "list"), (2, "var"), (2, "varlist"), (2, "tobj"), (2, "missing"), (1, "broken"), (2, "deep")])
         if k not in kind_ok:
             k = "c"
+        if k == "deep":
+            # the target exists, but pulls in a missing template itself: `ignore missing` must not hide that
+            self.have_deep = True
+            return ["c", d(st.sampled_from(["deep0", "deep1"]))], None, k
         if k == "c":
             return ["c", lib], lib, k
         if k == "list":
@@ -688,8 +704,8 @@ class _MGen:
             ctx = None
         if lib is None:
             im = d(st.integers(0, 9)) < 8  # missing without ignore / broken with ignore end the render: keep rare
-            if k == "broken":
-                im = True
+            if k in ("broken", "deep"):
+                im = d(st.integers(0, 9)) < 9
         else:
             im = d(st.integers(0, 3)) == 0
         return ["include", t, {"ctx": ctx, "im": im}]
@@ -815,6 +831,18 @@ def module_sets(draw, max_libs=3, size=3, buffered_nocontext=True):
         users.append(name)
     if g.have_broken:
         templates["bad"] = dict(BROKEN)
+    if g.have_deep:
+        how = draw(st.sampled_from(["include", "import", "from", "extends", "list"]))
+        inner = {
+            "include": ["include", ["c", "nope0"], {"ctx": draw(st.sampled_from([None, True, False])), "im": False}],
+            "import": ["import", ["c", "nope0"], "K", draw(st.sampled_from([None, True]))],
+            "from": ["from", ["c", "nope1"], [["p0", None]], None],
+            "extends": ["extends", ["c", "nope0"]],
+            "list": ["include", ["names", [["c", "nope0"], ["c", "nope1"]]], {"ctx": None, "im": False}],
+        }[how]
+        templates["deep0"] = [["text", "<deep0:"], inner, ["text", ">"]]
+        # one level deeper: an existing template that ignores nothing and includes deep0
+        templates["deep1"] = [["text", "<deep1:"], ["include", ["c", "deep0"], {"ctx": None, "im": draw(st.booleans())}], ["text", ">"]]
     data = {"nm": g.nm_lib, "tobj": {"$": "template", "name": g.tobj_lib}}
     other_lib = draw(st.sampled_from(g.libs))
     data["nms"] = [draw(st.sampled_from(["nope0", nms_lib])), other_lib] if draw(st.booleans()) else ["nope0", "nope1", nms_lib]
@@ -829,5 +857,5 @@ def module_sets(draw, max_libs=3, size=3, buffered_nocontext=True):
     if draw(st.integers(0, 3)) == 0:
         glob["q"] = "glob-q"
     ir = {"kind": "modules", "templates": templates, "entries": users, "globals": glob,
-          "modules": [n for n in sorted(templates) if n != "bad"]}
+          "modules": [n for n in sorted(templates) if n not in ("bad", "deep0", "deep1")]}
     return {"ir": ir, "data": data}
